@@ -281,6 +281,45 @@ fn check_merged_class(name: &str, c: &PClass, s: &PClass, m: &PClass, bad: &mut 
 	if m.vis != c.vis { bad.push(format!("{name}: a class both sides have must not get a class-level side mark")); }
 }
 
+/// the side marks and keys of a class as the independent parser sees them, against the projection of the merge result
+fn facts_differ(f: &fbh::classfile::facts::ClassFacts, p: &PClass) -> Option<&'static str> {
+	use fbh::classfile::facts::{AnnotationFacts, ElementValueFacts};
+	let side = |v: &ElementValueFacts| -> Option<Side> {
+		match v { ElementValueFacts::Enum { type_desc, const_name } if type_desc.to_string_lossy() == ENV_TYPE => match const_name.to_string_lossy().as_str() { "CLIENT" => Some(Side::Client), "SERVER" => Some(Side::Server), _ => None }, _ => None }
+	};
+	let ann = |a: &AnnotationFacts| -> Option<PAnn> {
+		let ty = a.type_desc.to_string_lossy();
+		if ty == ENVIRONMENT && a.pairs.len() == 1 && a.pairs[0].0.to_string_lossy() == "value" { return side(&a.pairs[0].1).map(PAnn::Env); }
+		if ty == ENV_ITFS && a.pairs.len() == 1 && a.pairs[0].0.to_string_lossy() == "value" {
+			if let ElementValueFacts::Array(arr) = &a.pairs[0].1 {
+				let mut out = vec![];
+				for e in arr {
+					match e {
+						ElementValueFacts::Annotation(x) if x.type_desc.to_string_lossy() == ENV_ITF && x.pairs.len() == 2 && x.pairs[0].0.to_string_lossy() == "value" && x.pairs[1].0.to_string_lossy() == "itf" => {
+							match (side(&x.pairs[0].1), &x.pairs[1].1) {
+								(Some(sd), ElementValueFacts::Class(d)) => { let d = d.code_points(); if d.len() < 2 { return None; } out.push((sd, d[1..d.len() - 1].to_vec())); }
+								_ => return None,
+							}
+						}
+						_ => return None,
+					}
+				}
+				return Some(PAnn::Itfs(out));
+			}
+		}
+		None
+	};
+	let marks = |l: &[AnnotationFacts]| -> Vec<PAnn> { l.iter().filter_map(|a| ann(a)).collect() };
+	let pmarks = |l: &[PAnn]| -> Vec<PAnn> { l.iter().filter(|a| !matches!(a, PAnn::Other(_))).cloned().collect() };
+	if f.name.code_points() != p.name { return Some("the class name"); }
+	if f.interfaces.iter().map(|i| i.code_points()).collect::<Vec<_>>() != p.itfs { return Some("the interface list"); }
+	if f.fields.iter().map(|x| (x.name.code_points(), x.desc.code_points(), marks(&x.invisible_annotations))).collect::<Vec<_>>() != p.fields.iter().map(|x| (x.name.clone(), x.desc.clone(), pmarks(&x.inv))).collect::<Vec<_>>() { return Some("the fields or their side marks"); }
+	if f.methods.iter().map(|x| (x.name.code_points(), x.desc.code_points(), marks(&x.invisible_annotations))).collect::<Vec<_>>() != p.methods.iter().map(|x| (x.name.clone(), x.desc.clone(), pmarks(&x.inv))).collect::<Vec<_>>() { return Some("the methods or their side marks"); }
+	if marks(&f.visible_annotations) != pmarks(&p.vis) { return Some("the class-level side marks"); }
+	if marks(&f.invisible_annotations) != pmarks(&p.inv) { return Some("the interface side marks"); }
+	None
+}
+
 fn oracle(r: &mut Report, client: &AJar, server: &AJar, route: Route, m: &Merged) {
 	let Outcome::Ok(out) = &m.outcome else { return };
 	let mut bad: Vec<String> = vec![];
@@ -336,6 +375,7 @@ fn oracle(r: &mut Report, client: &AJar, server: &AJar, route: Route, m: &Merged
 	}
 	// the written jar, re-opened: same names in the same order; resources and passed-through classes byte for byte
 	if let Some(re) = &m.reopened {
+		r.count("reopened:written jars re-opened");
 		let rn: Vec<&str> = re.iter().map(|x| x.0.as_str()).collect();
 		if rn != got { bad.push(format!("written jar re-opened has entries {rn:?}, the merge result {got:?}")); }
 		for ((_, data), e) in re.iter().zip(out) {
@@ -343,18 +383,10 @@ fn oracle(r: &mut Report, client: &AJar, server: &AJar, route: Route, m: &Merged
 				(OContent::Other(d), Some(x)) => if d != x { bad.push(format!("{}: resource bytes changed by writing the jar", e.name)); },
 				(OContent::Vec { bytes, .. }, Some(x)) => if bytes != x { bad.push(format!("{}: passed-through class bytes changed by writing the jar", e.name)); },
 				(OContent::Parsed(p), Some(x)) => {
-					let mut it = Interner::default();
-					let b = x.clone();
-					match guarded(move || duke::read_class(&mut Cursor::new(b)).ok()) {
-						Ok(Some(k)) => {
-							let q = project(&k, &mut it);
-							// interned numbers differ between interners: compare the structural parts
-							let strip = |c: &PClass| (c.name.clone(), c.itfs.clone(), c.fields.iter().map(|f| (f.key(), f.inv.iter().filter(|a| matches!(a, PAnn::Env(_))).cloned().collect::<Vec<_>>())).collect::<Vec<_>>(),
-								c.methods.iter().map(|f| (f.key(), f.inv.iter().filter(|a| matches!(a, PAnn::Env(_))).cloned().collect::<Vec<_>>())).collect::<Vec<_>>(),
-								c.vis.iter().filter(|a| !matches!(a, PAnn::Other(_))).cloned().collect::<Vec<_>>(), c.inv.iter().filter(|a| !matches!(a, PAnn::Other(_))).cloned().collect::<Vec<_>>());
-							if strip(&q) != strip(p) { bad.push(format!("{}: merged class read back from the written jar differs in members/marks", e.name)); }
-						}
-						_ => bad.push(format!("{}: merged class in the written jar cannot be read back", e.name)),
+					// the merged class as written into the jar, read by the harness' own strict parser (shares no code with duke)
+					match fbh::classfile::raw::parse(x).and_then(|rc| fbh::classfile::facts_raw::facts_from_raw(&rc)) {
+						Ok(f) => { r.count("reopened:merged classes read by the independent parser"); if let Some(d) = facts_differ(&f, p) { bad.push(format!("{}: merged class in the written jar, read by the independent parser, differs from the merge result in {d}", e.name)); } }
+						Err(err) => bad.push(format!("{}: merged class in the written jar is rejected by the independent parser: {err}", e.name)),
 					}
 				}
 				(OContent::Dir, None) => {}
@@ -422,7 +454,7 @@ pub fn run(ctx: &Ctx) -> anyhow::Result<Report> {
 	r.shard_size = if ctx.thorough { 250 } else { 60 };
 	let mut rng = Rng::new(ctx.seed);
 	let sweep_n = if ctx.thorough { 5 } else { 4 };
-	r.rule = format!("(1) exhaustive: every ordered pair of duplicate-free lists over {sweep_n} symbols (all lengths) as the interface lists of two otherwise equal classes, merged through dukebox::merge::merge; the model enumerates the same pairs inside Coq. (2) random list pairs up to length 12 that are interleavings of a common order, prefixes, suffixes, permutations, disjoint, equal, or arbitrary (also with duplicates, outside the theorems' hypothesis), through interfaces, fields and methods. (3) generated jar pairs (zip archives in memory and ParsedJars): disjoint/identical/overlapping entry sets over classes (net/minecraft, top-level, library packages), resources equal or different, directories, META-INF with manifest, .SF/.RSA/.DSA files; class pairs identical, differing in members/interfaces/annotations/inner classes. (4) separate streams outside the hypotheses: differing version/access/deprecated/synthetic flags (assert panics), differing super class or class name (Err), differing inner-class records, duplicate member keys, unreadable class bytes, entry kind mismatch. A case is non-trivial when at least one list/jar is non-empty and the merge returned a jar; distinct by printed case.");
+	r.rule = format!("(1) exhaustive: every ordered pair of duplicate-free lists over {sweep_n} symbols (all lengths) as the interface lists of two otherwise equal classes, merged through dukebox::merge::merge; the model enumerates the same pairs inside Coq. (2) random list pairs up to length 12 that are interleavings of a common order, prefixes, suffixes, permutations, disjoint, equal, or arbitrary (also with duplicates, outside the theorems' hypothesis), through interfaces, fields and methods. (3) generated jar pairs (zip archives in memory and ParsedJars): disjoint/identical/overlapping entry sets over classes (net/minecraft, top-level, library packages), resources equal or different, directories, META-INF with manifest, .SF/.RSA/.DSA files; class pairs identical, differing in members/interfaces/annotations/inner classes; every second merged jar is also written (ParsedJar::to_mem), re-opened, and its merged classes read by the harness' independent class-file parser. (4) separate streams outside the hypotheses: differing version/access/deprecated/synthetic flags (assert panics), differing super class or class name (Err), differing inner-class records, duplicate member keys, unreadable class bytes, entry kind mismatch. A case is non-trivial when at least one list/jar is non-empty and the merge returned a jar; distinct by printed case.");
 
 	// 1. sweep
 	let alpha: Vec<u32> = (1..=sweep_n as u32).collect();
@@ -457,13 +489,13 @@ pub fn run(ctx: &Ctx) -> anyhow::Result<Report> {
 	}
 
 	// 3./4. jars
-	let n = if ctx.thorough { 8000 } else { 640 };
+	let n = if ctx.thorough { 6000 } else { 640 };
 	for i in 0..n {
 		let twist = if i % 4 == 3 { gen::Twist::pick(&mut rng) } else { gen::Twist::None };
 		let route = if rng.chance(3, 5) { Route::Zip } else { Route::Parsed };
 		let (client, server) = gen::jar_pair(&mut rng, twist, route);
 		let stream = format!("jar-{}-{}", if route == Route::Zip { "zip" } else { "parsed" }, twist.name());
-		match run_merge(&client, &server, route, i % 5 == 0) {
+		match run_merge(&client, &server, route, i % 2 == 0) {
 			Err(e) => { r.count(&format!("skipped:{}", e.split(':').next().unwrap_or("?"))); }
 			Ok(m) => {
 				let term = g_case(&m);
@@ -480,6 +512,10 @@ pub fn run(ctx: &Ctx) -> anyhow::Result<Report> {
 			}
 		}
 	}
+	let panics: u64 = r.dist.iter().filter(|(k, _)| k.starts_with("outcome:") && k.ends_with(":panic")).map(|(_, v)| *v).sum();
+	let errs: u64 = r.dist.iter().filter(|(k, _)| k.starts_with("outcome:") && k.ends_with(":err")).map(|(_, v)| *v).sum();
+	r.notes.push(format!("observed outside the hypotheses (not violations of C13): {panics} merges panicked (assert_eq!/panic! on differing version, access, deprecated/synthetic flags, inner-class records), {errs} returned Err (differing super class or class name, unreadable class bytes, entry kind mismatch); the model predicts each of these outcomes (Panic/Fail) and is compared on them"));
+	r.notes.push("observed, outside the property text: a merged class has permitted_subclasses = None and no record components whatever the inputs had (TODOs in class_merger_merge); META-INF/*.DSA and *.EC are kept, only *.SF and *.RSA are dropped; a resource differing between the sides is taken from the client with a warning on stderr".to_owned());
 	Ok(r)
 }
 
@@ -497,6 +533,18 @@ fn stats(r: &mut Report, m: &Merged) {
 	if let Outcome::Ok(o) = &m.outcome {
 		let kept = o.len(); let total = m.client.len() + m.server.len() - both;
 		if kept < total { r.count_n("entries_skipped", (total - kept) as u64); }
+		// behaviour outside the property text, recorded as observed
+		for e in o {
+			if e.name.starts_with("META-INF/") && e.name.ends_with(".DSA") { r.count("observed:META-INF/*.DSA kept (only .SF and .RSA are dropped)"); }
+			if let (OContent::Parsed(mc), Some(c)) = (&e.content, by.get(e.name.as_str())) {
+				if let PContent::Class { parsed: Some(pc), .. } = &c.content {
+					if m.server.iter().any(|x| x.name == e.name) {
+						if pc.perm != 0 && mc.perm == 0 { r.count("observed:merged class drops PermittedSubclasses"); }
+						if pc.rec != 0 && mc.rec == 0 { r.count("observed:merged class drops record components"); }
+					}
+				}
+			}
+		}
 	}
 }
 
